@@ -1,7 +1,7 @@
 (* C16 -- Serde support round-trips expressions and contexts (the part that is evalexpr's own logic;
    serde's derive output and the ron wire format are exercised by real round trips in the harness). *)
 From Coq Require Import Floats.SpecFloat.
-Require Import Model.Base Model.Syntax Model.Value Model.Context Model.Interface Spec.SerdeSpec.
+Require Import Model.Base Model.Syntax Model.Value Model.Context Model.Interface Model.Display Spec.SerdeSpec.
 
 Theorem C16_node_tree : forall (message : Type) (display : error -> message) (s : str) (n : node),
   build_operator_tree s = Ok n -> deserialize_node message display s = DOk message node n.
@@ -29,3 +29,9 @@ Proof.
   intros wire enc dec H c c' Hk Hd. rewrite (ctx_roundtrip wire enc dec H) in Hd. inversion Hd; subst c'; clear Hd.
   unfold get_value, are_builtin_functions_disabled, lookup_function, has_store; cbn. rewrite Hk. repeat split; reflexivity.
 Qed.
+
+(* instantiated with the modelled Display of errors (Model/Display.v error_fmt, compared as text with the
+   implementation on every C01 run): the message of a failed deserialization is the message of the failed precompilation *)
+Theorem C16_node_error_message : forall (F : fmt_oracle) (s : str) (e : error),
+  build_operator_tree s = Err e -> deserialize_node str (error_fmt F) s = DErr str node (error_fmt F e).
+Proof. intros F. exact (node_same_error str (error_fmt F)). Qed.
